@@ -2,7 +2,7 @@
 //! and the property's own oracles (minimality, roots emitted, consistency with the full run,
 //! rustc closure) on generated declaration graphs and on the repository headers.
 use bgverif::allowmodel::{self as am, Answer, PatternSets};
-use bgverif::cgen::{self, DKind, Program};
+use bgverif::allowgen::{self as cgen, DKind, Program};
 use bgverif::drive::{self, Scratch};
 use bgverif::inventory;
 use bgverif::irdump;
